@@ -18,7 +18,7 @@ CLAIMS = {
   note="trusted: go/ssa front end, SMT solvers, frame-chain model (up()). Not covered: every other control construct (if/for/switch/select/range layout and closures, label resolution of break/continue, jump tables), forward goto (documented limitation), composition into programs",
   ref="DESIGN.md section 0.1, section 5 C05"),
  "C06": dict(
-  text="second sentence of the property (a recycled frame is never observable): freeEnv, newEnv, NewEnv, FreeEnv, freeEnv4Func, MarkUsedByClosure are verified against a representation invariant of Run.Pool (poolOK: pooled frames are distinct, not captured by a closure, no escaped slot address, detached) - a frame marked UsedByClosure is never pooled and keeps its slots; a frame whose slot address was taken gives up its Ints array before pooling; newEnv hands out a frame that is no longer in the pool; memory safety of the pool indices; every address-of closure of Var.Address (198 closures: kind x depth x storage class) sets IntAddressTaken on the frame the variable lives in - not the current one - and writes nothing else",
+  text="second sentence of the property (a recycled frame is never observable): freeEnv, newEnv, NewEnv, FreeEnv, freeEnv4Func, MarkUsedByClosure are verified against a representation invariant of Run.Pool (poolOK: pooled frames are distinct, not captured by a closure, no escaped slot address, detached) - a frame marked UsedByClosure is never pooled and keeps its slots; a frame whose slot address was taken gives up its Ints array before pooling; newEnv hands out a frame that is no longer in the pool; memory safety of the pool indices; every address-of closure of Var.Address (198 closures: kind x depth x storage class) sets IntAddressTaken on the frame the variable lives in - not the current one - and writes nothing else; the closures of call0ret0 (a call f() of a function variable at depth 0, 1, 2, generic) call the function the variable holds now, once, and do nothing else - the file-level variant, which calls a cached function, is a recorded known finding (F23)",
   note="trusted: go/ssa front end, SMT solvers, heap model (type-based field arrays). Not covered: first sentence (call results equal compiled Go: call*.go / func*ret*.go specialisations), that each function-creating closure marks its frame and frees it exactly once (typestate over func0ret0..), newEnv4Func, the value of the pointer an address-of closure returns; assumed: reflect / xreflect Value.Addr, Interface have no effect, only the 16 unboxable kinds have class IntBind, environment invariant (FileEnv)",
   ref="DESIGN.md section 5 C06"),
  "C12": dict(
